@@ -341,6 +341,13 @@ structure Tree (K V D : Type) where
 /-- All three constructors: `Page::new(0, vec![])`, `root_hash: None`. -/
 def Tree.empty : Tree K V D := { root := .some 0 Option.none .nil .none, rootHash := Option.none }
 
+/-- `MerkleSearchTree::default()` (tree.rs:118), `Builder::build()` (tree.rs:332) and the deprecated
+`new_with_hasher()` (tree.rs:135) all start from `Page::new(0, vec![])` with `root_hash: None`; they
+differ only in the hasher / level base they store, which the model receives as `lvl` / `level`. -/
+def Tree.default : Tree K V D := Tree.empty
+def Tree.builderBuild : Tree K V D := Tree.empty
+def Tree.newWithHasher : Tree K V D := Tree.empty
+
 def Pg.nodesNil : Pg K V D → Bool
   | .none => true
   | .some _ _ n _ => n.isNil
